@@ -224,6 +224,78 @@ Section Topo.
           end
       end.
 
+    (* ReplicaSetIterator as the state machine it is: next() and nth(n) may be interleaved.
+       IPlain: (replicas, idx); IFiltered: (replicas, datacenter, idx);
+       IChained: (current datacenter's replicas, replicas_idx, datacenters still to come). *)
+    Inductive istate :=
+    | IPlain (l : list N) (idx : nat)
+    | IFiltered (l : list N) (d : N) (idx : nat)
+    | IChained (m : list (N * nat)) (cur : list N) (ridx : nat) (rest : list N).
+    Definition it_init (s : rset) : istate :=
+      match s with
+      | RPlain l => IPlain l 0
+      | RFiltered l d => IFiltered l d 0
+      | RChained m => match ring_dcs g with
+                      | [] => IPlain [] 0
+                      | d :: rest => IChained m (get_nts g pre t d (rf_or0 m d)) 0 rest
+                      end
+      end.
+    (* `while let Some(replica) = replicas.get(idx) { idx += 1; if dc matches { return } }` *)
+    Fixpoint filt_next (d : N) (suffix : list N) (idx : nat) : option N * nat :=
+      match suffix with
+      | [] => (None, idx)
+      | x :: r => if in_dc d x then (Some x, S idx) else filt_next d r (S idx)
+      end.
+    Fixpoint chain_next (m : list (N * nat)) (cur : list N) (ridx : nat) (rest : list N) : option N * istate :=
+      match nth_error cur ridx with
+      | Some x => (Some x, IChained m cur (S ridx) rest)
+      | None => match rest with
+                | d :: r => chain_next m (get_nts g pre t d (rf_or0 m d)) 0 r
+                | [] => (None, IChained m cur ridx [])
+                end
+      end.
+    Definition it_next (st : istate) : option N * istate :=
+      match st with
+      | IPlain l idx => match nth_error l idx with
+                        | Some x => (Some x, IPlain l (S idx))
+                        | None => (None, IPlain l idx)
+                        end
+      | IFiltered l d idx => let (o, idx') := filt_next d (skipn idx l) idx in (o, IFiltered l d idx')
+      | IChained m cur ridx rest => chain_next m cur ridx rest
+      end.
+    (* FilteredSimple::nth : `for _ in 0..n { self.next()?; } self.next()` *)
+    Fixpoint next_times (n : nat) (st : istate) : option N * istate :=
+      match n with
+      | O => it_next st
+      | S n' => let (o, st') := it_next st in
+                match o with None => (None, st') | Some _ => next_times n' st' end
+      end.
+    (* ChainedNTS::nth : the loop over datacenters *)
+    Fixpoint chain_nth (m : list (N * nat)) (cur : list N) (ridx : nat) (rest : list N) (remaining : nat)
+      : option N * istate :=
+      let left := (List.length cur - ridx)%nat in
+      if (remaining <? left)%nat then chain_next m cur (ridx + remaining) rest
+      else match rest with
+           | d :: r => chain_nth m (get_nts g pre t d (rf_or0 m d)) 0 r (remaining - left)
+           | [] => (None, IChained m cur (List.length cur) [])
+           end.
+    Definition it_nth (n : nat) (st : istate) : option N * istate :=
+      match st with
+      | IPlain l idx =>
+          let idx' := (idx + n)%nat in
+          if (List.length l <=? idx')%nat then (None, IPlain l (List.length l)) else it_next (IPlain l idx')
+      | IFiltered _ _ _ => next_times n st
+      | IChained m cur ridx rest => chain_nth m cur ridx rest n
+      end.
+    Inductive iop := INext | INth (k : nat).
+    Fixpoint it_run (ops : list iop) (st : istate) : list (option N) :=
+      match ops with
+      | [] => []
+      | op :: r => let (o, st') := match op with INext => it_next st | INth k => it_nth k st end in
+                   o :: it_run r st'
+      end.
+    Definition rs_run (s : rset) (ops : list iop) : list (option N) := it_run ops (it_init s).
+
     (* ReplicaSet::choose with the random index as an oracle argument (the code draws it from
        0..len and returns None when len = 0) *)
     Fixpoint choose_chained (m : list (N * nat)) (dcs : list N) (to_skip : nat) : option N :=
@@ -349,6 +421,20 @@ Fixpoint nodupb (l : list N) : bool :=
 (* same set of nodes, no node twice *)
 Definition same_set (a b : list N) : bool :=
   nodupb a && nodupb b && subset a b && subset b a.
+
+(* what interleaved next() / nth(n) mean on the sequence an iterator yields *)
+Fixpoint list_run (ops : list iop) (l : list N) : list (option N) :=
+  match ops with
+  | [] => []
+  | INext :: r => hd_error l :: list_run r (tl l)
+  | INth k :: r => nth_error l k :: list_run r (skipn (S k) l)
+  end.
+
+(* the property on observed views: the reported replicas are the specified SET of nodes
+   (into_iter's order is not promised), the ring-ordered view is those nodes in ring order *)
+Definition placement_ok (spec observed : list N) : bool := same_set observed spec.
+Definition ordered_ok (g : ring N) (t : Z) (iter ordered : list N) : bool :=
+  list_eqb ordered (filter (fun x => mem x iter) (uniq (ring_range g t))).
 
 (* tokens of the global ring all distinct / distinct inside every datacenter *)
 Definition tokens_distinct (g : ring N) : bool := sorted_strictb g.
